@@ -8,6 +8,7 @@ import TssVerif.Core.Primes
 import TssVerif.Core.Blame
 import TssVerif.Core.BlameEc
 import TssVerif.Core.BlameEc5
+import TssVerif.Core.BlameEc4
 import TssVerif.Core.BlameRs
 import TssVerif.Core.BlameSg
 import TssVerif.Core.BlameSg9
@@ -276,6 +277,19 @@ def run (op : String) (args : List String) : Option String :=
         | none => "pass"
         | some (c, why) => "fail culprits=" ++ toString c ++ " " ++ why.replace " " "-")
     | _, _, _, _, _, _ => none
+  | "ec_kg_round4", [pub, peers] =>
+    -- peers: `idx/N/party key/proof numbers` separated by `;`
+    let pPeer (s : String) : Option BlameEc.R3Peer :=
+      match s.splitOn "/" with
+      | [idx, n, k, pf] =>
+        match pDec idx, pNat n, pNat k, pList pNat pf with
+        | some idx, some n, some k, some pf => some ⟨idx, n, k, pf⟩
+        | _, _, _, _ => none
+      | _ => none
+    match pPoint pub, (peers.splitOn ";").mapM pPeer with
+    | some pub, some peers =>
+      some ((BlameEc.kgRound4 Sha512.sha512_256 curPaiProof pub peers).render fun cs => "culprits=" ++ rList toString cs)
+    | _, _ => none
   | "engine2_trace", [proto, role, nOld, nNew, self, evs] =>
     match Engine2.findProto proto, pDec nOld, pDec nNew, pDec self with
     | some p, some nOld, some nNew, some self =>
